@@ -274,6 +274,12 @@ macro_rules! fmt_path {
                 let ve = p.to_vec_edges().iter().map(|e| fmt_edge(e)).collect::<Vec<_>>().join("");
                 let ni = p.iter_nodes().count();
                 s.push_str(&format!(" acc {} {} {} {} {} {} {}", fe, le, f_n, l_n, i0, ve, ni));
+                // the PUBLIC field `edges` and indexing at every position are the same sequence the accessors report
+                let field = p.edges.iter().map(|e| fmt_edge(e)).collect::<Vec<_>>().join("");
+                let indexed = (0..p.edges.len()).map(|i| fmt_edge(&p[i])).collect::<Vec<_>>().join("");
+                if field != ve || indexed != ve {
+                    s.push_str(" PATH.EDGES-OR-INDEXING-DIFFERS-FROM-TO_VEC_EDGES");
+                }
                 s
             }
         }
@@ -297,9 +303,11 @@ fn fmt_edges(v: Vec<Ed>) -> String {
 }
 
 macro_rules! with_method {
-    ($b:expr, $meth:expr, $ff:expr, $fe:expr) => {{
+    ($b:expr, $meth:expr, $ff:expr, $fe:expr, $nf:expr, $ne:expr, $variant:expr) => {{
         let b = $b;
         match $meth {
+            Meth::Filter if $variant % 2 == 1 => b.for_each($ne).filter($ff),
+            Meth::Each if $variant % 2 == 1 => b.filter($nf).for_each($fe),
             Meth::Filter => b.filter($ff),
             Meth::Each => b.for_each($fe),
             Meth::None => b,
@@ -874,6 +882,20 @@ macro_rules! consume_edges {
                     }
                 }
             }
+            // INTERNAL iteration (Iterator::for_each / fold / sum): the loop body runs inside the iterator's own method,
+            // which must not hold a borrow / guard across it either
+            8 => {
+                it.for_each(|e| {
+                    $cbs.on_edge(&e);
+                });
+            }
+            9 => {
+                if let Some(e) = it.next() {
+                    $cbs.on_edge(&e);
+                    let n: usize = it.map(|e| { $cbs.on_edge(&e); 1usize }).sum();
+                    let _ = n;
+                }
+            }
             _ => loop {
                 match it.next() {
                     Some(e) => {
@@ -897,7 +919,7 @@ fn run_loop(w: &World, st: &[String]) -> String {
     let cbs = CbState::new(w, Pred::All);
     let nth = w.loops.get();
     w.loops.set(nth + 1);
-    let variant = (st.iter().map(|t| t.bytes().map(|b| b as usize).sum::<usize>()).sum::<usize>() + nth) % 8;
+    let variant = (st.iter().map(|t| t.bytes().map(|b| b as usize).sum::<usize>()).sum::<usize>() + nth) % 10;
     match st[1].as_str() {
         "out" => {
             consume_edges!(u.iter_out(), cbs, variant);
@@ -937,6 +959,13 @@ fn run_search(w: &World, st: &[String]) -> String {
     let mut fe = |e: &Ed| {
         cbs.on_edge(e);
     };
+    // closures that are set and then REPLACED by the step's own method (filter and for_each share one slot: the later call wins)
+    let mut nf = |_e: &Ed| false;
+    let mut ne = |_e: &Ed| {};
+    // the builder calls are made in an order chosen per step (a pure function of the step text): the configuration,
+    // not the order of the calls, decides the search; a repeated target() / min() / max() is overridden by the last one
+    let variant: u32 = st.iter().map(|t| t.bytes().map(|b| b as u32).sum::<u32>()).sum::<u32>() % 4;
+    let wrong_key: Kt = Kt::of(999_983);
     macro_rules! terminal {
         ($b:expr, $kind:tt) => {{
             let mut b = $b;
@@ -988,6 +1017,10 @@ fn run_search(w: &World, st: &[String]) -> String {
                     } else { r }
                 }};
             }
+            if meth == Meth::None && then_op.is_none() && variant >= 2 && what != "path" {
+                // another terminal method first, on the same object, its result discarded
+                let _ = b.search_path();
+            }
             match what {
                 "find" => find_arm!($kind),
                 "path" => again!(fmt_path!(b.search_path()), fmt_path!(b.search_path())),
@@ -996,10 +1029,6 @@ fn run_search(w: &World, st: &[String]) -> String {
             }
         }};
     }
-    // the builder calls are made in an order chosen per step (a pure function of the step text): the configuration,
-    // not the order of the calls, decides the search; a repeated target() / min() / max() is overridden by the last one
-    let variant: u32 = st.iter().map(|t| t.bytes().map(|b| b as u32).sum::<u32>()).sum::<u32>() % 4;
-    let wrong_key: Kt = Kt::of(999_983);
     // where the priority setter (min / max) is called relative to the other setters also varies: the configuration, not
     // the order of the calls, decides the search
     macro_rules! prio_none { ($b:expr) => { $b }; }
@@ -1019,11 +1048,11 @@ fn run_search(w: &World, st: &[String]) -> String {
                     if let Some(ref t) = target {
                         b = b.target(t);
                     }
-                    let b = with_method!(b, meth, &mut ff, &mut fe);
+                    let b = with_method!(b, meth, &mut ff, &mut fe, &mut nf, &mut ne, variant);
                     terminal!(b, $kind)
                 }
                 1 => {
-                    let mut b = with_method!(b, meth, &mut ff, &mut fe);
+                    let mut b = with_method!(b, meth, &mut ff, &mut fe, &mut nf, &mut ne, variant);
                     if let Some(ref t) = target {
                         b = b.target(t);
                     }
@@ -1038,7 +1067,7 @@ fn run_search(w: &World, st: &[String]) -> String {
                         b = b.target(&wrong_key).target(t);
                     }
                     b = $pr!(b);
-                    let mut b = with_method!(b, meth, &mut ff, &mut fe);
+                    let mut b = with_method!(b, meth, &mut ff, &mut fe, &mut nf, &mut ne, variant);
                     if tr {
                         b = b.transpose();
                     }
@@ -1049,7 +1078,7 @@ fn run_search(w: &World, st: &[String]) -> String {
                         // transpose() selects the reversed graph; it is a setter, not a toggle: calling it again changes nothing
                         b = b.transpose().transpose();
                     }
-                    let mut b = with_method!(b, meth, &mut ff, &mut fe);
+                    let mut b = with_method!(b, meth, &mut ff, &mut fe, &mut nf, &mut ne, variant);
                     b = $pr!(b);
                     if let Some(ref t) = target {
                         b = b.target(t);
@@ -1065,15 +1094,25 @@ fn run_search(w: &World, st: &[String]) -> String {
             if tr && variant % 2 == 0 {
                 b = b.transpose();
             }
-            let mut b = with_method!(b, meth, &mut ff, &mut fe);
+            let mut b = with_method!(b, meth, &mut ff, &mut fe, &mut nf, &mut ne, variant);
             if tr && variant % 2 == 1 {
                 b = b.transpose();   // the closure first, then the direction
             }
             macro_rules! once {
                 () => {
                     match what {
-                        "nodes" => fmt_nodes(b.search_nodes()),
-                        "edges" => fmt_edges(b.search_edges()),
+                        "nodes" => {
+                            if meth == Meth::None && variant >= 2 {
+                                let _ = b.search_edges();   // the other terminal first, on the same object
+                            }
+                            fmt_nodes(b.search_nodes())
+                        }
+                        "edges" => {
+                            if meth == Meth::None && variant >= 2 {
+                                let _ = b.search_nodes();
+                            }
+                            fmt_edges(b.search_edges())
+                        }
                         _ => "bad-what".to_string(),
                     }
                 };
